@@ -114,6 +114,18 @@ func (i *stringInternalNode) count() int { return len(i.runts) }
 
 func (i *stringInternalNode) deleteKey(minSize int, key string) bool {
 	index := stringSearchLessThanOrEqualTo(key, i.runts)
+
+	var leftSibling, rightSibling stringNode
+	var leftCount, rightCount int
+
+	if index > 0 {
+		// Lock the left sibling before the child, so siblings are always locked
+		// from left to right, the same direction cursors walk the leaves.
+		leftSibling = i.children[index-1]
+		leftSibling.lock()
+		defer leftSibling.unlock()
+	}
+
 	child := i.children[index]
 	child.lock()
 	defer child.unlock()
@@ -122,9 +134,6 @@ func (i *stringInternalNode) deleteKey(minSize int, key string) bool {
 		return false
 	}
 	// POST: child is too small
-
-	var leftSibling, rightSibling stringNode
-	var leftCount, rightCount int
 
 	if index < len(i.runts)-1 {
 		// try right sibling first to encourage left leaning trees
@@ -141,9 +150,6 @@ func (i *stringInternalNode) deleteKey(minSize int, key string) bool {
 
 	if index > 0 {
 		// try left sibling
-		leftSibling = i.children[index-1]
-		leftSibling.lock()
-		defer leftSibling.unlock()
 		if leftCount = leftSibling.count(); leftCount > minSize {
 			child.adoptFromLeft(leftSibling)
 			i.runts[index] = child.smallest()
